@@ -1,11 +1,11 @@
-//! Abstract POMs and universes; their XML, the Debug text serde must produce from that XML
-//! (checked for every generated document, so the XML step outside the model is still tied),
+//! Abstract POMs and universes; their XML (bare, or a realistic rendering with namespace declarations,
+//! comments, white space, CDATA and elements the resolver ignores), the serialised form serde must produce
+//! from that XML (checked for every generated document, so the XML step outside the model is still tied),
 //! and their Gallina form.
 use fbh::gal::*;
 
 pub const SCOPES: [&str; 5] = ["compile", "runtime", "test", "system", "provided"];
 pub const SCOPE_CTORS: [&str; 5] = ["Compile", "Runtime", "Test", "System", "Provided"];
-pub const SCOPE_DEBUG: [&str; 5] = ["Compile", "Runtime", "Test", "System", "Provided"];
 pub const IMPORT: u8 = 5;
 
 #[derive(Clone, Debug, PartialEq, Eq, Hash)]
@@ -19,6 +19,12 @@ pub struct APom {
 	pub version: Option<String>, pub packaging: Option<String>, pub dm: Vec<ADep>, pub deps: Vec<ADep>,
 	/// XML only: an empty `<dependencyManagement>` element instead of none (no effect on the POM's meaning)
 	pub dm_empty_element: bool,
+	/// XML only, bit 0: an empty `<dependencies/>` element instead of none; bit 1: `<dependencyManagement>` holding an
+	/// empty `<dependencies>` element (both legal by the POM schema; accepted since the `fix:` of Dependencies::dependency)
+	pub empty_lists: u8,
+	/// XML only: 0 = the bare document; otherwise the seed of a realistic rendering (XML declaration, namespace
+	/// declarations, comments, white space around values, CDATA, reordered sections, elements the resolver must ignore)
+	pub xml_style: u64,
 }
 #[derive(Clone, Debug, PartialEq, Eq, Hash)]
 pub enum Entry { Pom(APom), Broken(String) }
@@ -30,7 +36,9 @@ pub struct ACoord { pub group: String, pub artifact: String, pub version: String
 pub struct Repo { pub name: String, pub maven: String, pub files: Vec<((String, String, String), Entry)> }
 
 #[derive(Clone, Debug)]
-pub struct Universe { pub repos: Vec<Repo>, pub roots: Vec<(ACoord, u8)> }
+pub struct Universe { pub repos: Vec<Repo>, pub roots: Vec<(ACoord, u8)>,
+	/// repositories whose documents the Downloader would serve but which are NOT among the resolvers handed to the crate
+	pub unlisted: Vec<Repo> }
 
 // ---------- XML ----------
 pub fn esc(s: &str) -> String { s.replace('&', "&amp;").replace('<', "&lt;").replace('>', "&gt;") }
@@ -47,6 +55,7 @@ fn dep_xml(d: &ADep) -> String {
 	s
 }
 pub fn pom_xml(p: &APom) -> String {
+	if p.xml_style != 0 { return pom_xml_rich(p); }
 	let mut s = String::from("<project>\n");
 	s += &el("modelVersion", &p.model_version);
 	if let Some((g, a, v)) = &p.parent { s += &format!("<parent>{}{}{}</parent>", el("groupId", g), el("artifactId", a), el("version", v)); }
@@ -55,32 +64,138 @@ pub fn pom_xml(p: &APom) -> String {
 		s += "\n<dependencyManagement><dependencies>";
 		for d in &p.dm { s += &dep_xml(d); }
 		s += "</dependencies></dependencyManagement>";
-	} else if p.dm_empty_element { s += "<dependencyManagement></dependencyManagement>"; }
+	} else if p.empty_lists & 2 != 0 { s += "<dependencyManagement><dependencies/></dependencyManagement>"; }
+	else if p.dm_empty_element { s += "<dependencyManagement></dependencyManagement>"; }
 	if !p.deps.is_empty() {
 		s += "\n<dependencies>";
 		for d in &p.deps { s += &dep_xml(d); }
 		s += "</dependencies>";
-	}
+	} else if p.empty_lists & 1 != 0 { s += "\n<dependencies></dependencies>"; }
 	s += "\n</project>";
 	s
 }
 
-// ---------- the Debug text of the deserialised MavenPom ----------
-fn dep_debug(d: &ADep, mgmt: bool) -> String {
-	let sc = match d.scope { None => "None".to_string(), Some(x) if x == IMPORT && mgmt => "Some(Import)".to_string(), Some(x) => format!("Some({})", SCOPE_DEBUG[x as usize]) };
-	format!("Dependency {{ group_id: {:?}, artifact_id: {:?}, version: {:?}, type_: {:?}, classifier: {:?}, scope: {}, optional: {:?} }}",
-		d.group, d.artifact, d.version, d.type_, d.classifier, sc, d.optional)
+// ---------- realistic rendering: what POMs in repositories look like ----------
+struct Sty(u64);
+impl Sty {
+	fn next(&mut self) -> u64 { self.0 = self.0.wrapping_mul(6364136223846793005).wrapping_add(1442695040888963407); self.0 >> 33 }
+	fn below(&mut self, n: u64) -> u64 { self.next() % n }
+	fn chance(&mut self, a: u64, b: u64) -> bool { self.below(b) < a }
+	/// white space and comments between elements
+	fn gap(&mut self, indent: usize) -> String {
+		let mut s = match self.below(4) { 0 => String::new(), 1 => "\n".to_string(), 2 => format!("\n{}", "  ".repeat(indent)), _ => format!("\r\n{}", "\t".repeat(indent)) };
+		if self.chance(1, 6) { s += *[ "<!-- a comment -->", "<!--<dependency><groupId>commented</groupId><artifactId>out</artifactId><version>0</version></dependency>-->", "<!-- multi\n     line -->", "<!---->" ].get(self.below(4) as usize).unwrap(); s += "\n"; s += &"  ".repeat(indent); }
+		s
+	}
+	/// an element with a text value: padded with white space (Maven and serde-xml-rs both trim), sometimes CDATA
+	fn el(&mut self, name: &str, v: &str) -> String {
+		let body = if !v.is_empty() && !v.contains("]]>") && self.chance(1, 10) { format!("<![CDATA[{v}]]>") } else { esc(v) };
+		match self.below(8) { 0 => format!("<{name}> {body} </{name}>"), 1 => format!("<{name}>\n      {body}\n    </{name}>"), 2 if v.is_empty() => format!("<{name}/>"), _ => format!("<{name}>{body}</{name}>") }
+	}
+	fn opt_el(&mut self, name: &str, v: &Option<String>) -> String { match v { Some(v) => self.el(name, v), None => String::new() } }
+	/// an element of the POM schema that plays no part in dependency resolution within the supported subset
+	fn ignored(&mut self) -> String {
+		match self.below(14) {
+			0 => "<name>Some Library</name>".into(),
+			1 => "<description>A library.\n    Second line &amp; an entity, <![CDATA[ <raw> text ]]></description>".into(),
+			2 => "<url>https://example.org/lib</url>".into(),
+			3 => "<inceptionYear/>".into(),
+			4 => "<licenses><license><name>Apache-2.0</name><url>https://www.apache.org/licenses/LICENSE-2.0.txt</url><distribution>repo</distribution></license></licenses>".into(),
+			5 => "<developers><developer><id>dev</id><name>D. Eveloper</name><email>d@example.org</email></developer></developers>".into(),
+			6 => "<scm><connection>scm:git:https://example.org/lib.git</connection><tag>HEAD</tag></scm>".into(),
+			7 => "<properties><project.build.sourceEncoding>UTF-8</project.build.sourceEncoding><maven.compiler.release>17</maven.compiler.release><empty.property/></properties>".into(),
+			// a plugin's own <dependencies> and <version> are nested below <build>: not the project's
+			8 => "<build><finalName>lib</finalName><plugins><plugin><groupId>org.apache.maven.plugins</groupId><artifactId>maven-compiler-plugin</artifactId><version>3.11.0</version><configuration><release>17</release></configuration><dependencies><dependency><groupId>plugin.only</groupId><artifactId>plugin-dep</artifactId><version>9</version></dependency></dependencies></plugin></plugins></build>".into(),
+			9 => "<repositories><repository><id>extra</id><url>https://repo.example.org/m2</url></repository></repositories>".into(),
+			10 => "<distributionManagement><repository><id>releases</id><url>https://repo.example.org/releases</url></repository></distributionManagement>".into(),
+			11 => "<modules><module>core</module><module>api</module></modules>".into(),
+			12 => "<organization><name>Example Org</name></organization>".into(),
+			_ => "<issueManagement><system>none</system></issueManagement>".into(),
+		}
+	}
+	fn dep(&mut self, d: &ADep, indent: usize) -> String {
+		let mut s = String::from("<dependency>");
+		let mut parts = vec![self.el("groupId", &d.group), self.el("artifactId", &d.artifact), self.opt_el("version", &d.version), self.opt_el("type", &d.type_), self.opt_el("classifier", &d.classifier)];
+		if let Some(sc) = d.scope { parts.push(self.el("scope", if sc == IMPORT { "import" } else { SCOPES[sc as usize] })); }
+		if let Some(o) = d.optional { parts.push(self.el("optional", if o { "true" } else { "false" })); }
+		parts.retain(|x| !x.is_empty());
+		if self.chance(1, 4) { parts.reverse(); } // the schema's xs:all: children in any order
+		for x in parts { s += &self.gap(indent + 1); s += &x; }
+		s += &self.gap(indent); s += "</dependency>";
+		s
+	}
+	fn deps(&mut self, ds: &[ADep], indent: usize) -> String {
+		if ds.is_empty() { return if self.chance(1, 2) { "<dependencies/>".into() } else { "<dependencies>\n  </dependencies>".into() }; }
+		let mut s = String::from("<dependencies>");
+		for d in ds { s += &self.gap(indent + 1); s += &self.dep(d, indent + 1); }
+		s += &self.gap(indent); s += "</dependencies>";
+		s
+	}
 }
-fn deps_debug(ds: &[ADep], mgmt: bool) -> String {
-	format!("Some(Dependencies {{ dependency: [{}] }})", ds.iter().map(|d| dep_debug(d, mgmt)).collect::<Vec<_>>().join(", "))
+fn pom_xml_rich(p: &APom) -> String {
+	let mut st = Sty(p.xml_style);
+	let mut s = String::new();
+	if st.chance(3, 4) { s += if st.chance(1, 2) { "<?xml version=\"1.0\" encoding=\"UTF-8\"?>\n" } else { "<?xml version='1.0' encoding='utf-8' standalone='yes'?>\n" }; }
+	if st.chance(1, 3) { s += "<!--\n  Licensed under the Example License; <project> in a comment\n-->\n"; }
+	s += match st.below(4) {
+		0 => "<project>",
+		1 => "<project xmlns=\"http://maven.apache.org/POM/4.0.0\">",
+		_ => "<project xmlns=\"http://maven.apache.org/POM/4.0.0\" xmlns:xsi=\"http://www.w3.org/2001/XMLSchema-instance\"\n         xsi:schemaLocation=\"http://maven.apache.org/POM/4.0.0 https://maven.apache.org/xsd/maven-4.0.0.xsd\">",
+	};
+	// the sections of the document; their order is free (xs:all)
+	let mut sections: Vec<String> = vec![];
+	sections.push(st.el("modelVersion", &p.model_version));
+	if let Some((g, a, v)) = &p.parent {
+		let mut x = String::from("<parent>");
+		x += &st.gap(2); x += &st.el("groupId", g); x += &st.gap(2); x += &st.el("artifactId", a); x += &st.gap(2); x += &st.el("version", v);
+		if st.chance(1, 2) { x += &st.gap(2); x += if st.chance(1, 2) { "<relativePath/>" } else { "<relativePath>../pom.xml</relativePath>" }; }
+		x += &st.gap(1); x += "</parent>";
+		sections.push(x);
+	}
+	for (n, v) in [("groupId", &p.group), ("version", &p.version), ("packaging", &p.packaging)] { if v.is_some() { sections.push(st.opt_el(n, v)); } }
+	sections.push(st.el("artifactId", &p.artifact));
+	if !p.dm.is_empty() || p.empty_lists & 2 != 0 {
+		let mut x = String::from("<dependencyManagement>"); x += &st.gap(2); x += &st.deps(&p.dm, 2); x += &st.gap(1); x += "</dependencyManagement>";
+		sections.push(x);
+	} else if p.dm_empty_element { sections.push(if st.chance(1, 2) { "<dependencyManagement/>".into() } else { "<dependencyManagement>\n  </dependencyManagement>".into() }); }
+	if !p.deps.is_empty() || p.empty_lists & 1 != 0 { sections.push(st.deps(&p.deps, 1)); }
+	let extra = st.below(6);
+	let mut seen = vec![];
+	for _ in 0..extra { let x = st.ignored(); let tag: String = x.chars().take_while(|c| *c != '>' && *c != '/').collect(); if !seen.contains(&tag) { seen.push(tag); sections.push(x); } }
+	// modelVersion first as everybody writes it (sometimes not), the rest shuffled half of the time
+	if st.chance(1, 2) { let n = sections.len(); for i in (2..n).rev() { let j = 1 + st.below(i as u64) as usize; sections.swap(i, j); } }
+	if st.chance(1, 8) { sections.rotate_left(1); }
+	for x in sections { s += &st.gap(1); s += &x; }
+	s += &st.gap(0); s += "</project>";
+	if st.chance(1, 2) { s += "\n"; }
+	if st.chance(1, 8) { s += "<!-- trailing comment -->\n"; }
+	s
 }
-pub fn pom_debug(p: &APom) -> String {
-	let parent = match &p.parent { None => "None".to_string(), Some((g, a, v)) => format!("Some(Parent {{ group_id: {g:?}, artifact_id: {a:?}, version: {v:?} }})") };
-	let dm = if !p.dm.is_empty() { format!("Some(DependencyManagement {{ dependencies: {} }})", deps_debug(&p.dm, true)) }
-		else if p.dm_empty_element { "Some(DependencyManagement { dependencies: None })".to_string() } else { "None".to_string() };
-	let deps = if p.deps.is_empty() { "None".to_string() } else { deps_debug(&p.deps, false) };
-	format!("MavenPom {{ model_version: {:?}, parent: {}, group_id: {:?}, artifact_id: {:?}, version: {:?}, packaging: {:?}, dependency_management: {}, dependencies: {} }}",
-		p.model_version, parent, p.group, p.artifact, p.version, p.packaging, dm, deps)
+
+// ---------- what serde must make of the XML: the serialised form of the deserialised MavenPom ----------
+// (compared field by field against the abstract POM; fields this harness does not know are ignored, so a field
+//  added to MavenPom does not break the tie)
+fn dep_json(d: &ADep) -> serde_json::Value {
+	let sc = d.scope.map(|x| if x == IMPORT { "import" } else { SCOPES[x as usize] });
+	serde_json::json!({ "groupId": d.group, "artifactId": d.artifact, "version": d.version, "type": d.type_, "classifier": d.classifier, "scope": sc, "optional": d.optional })
+}
+pub fn pom_json(p: &APom) -> serde_json::Value {
+	let deps = |ds: &[ADep]| serde_json::json!({ "dependency": ds.iter().map(dep_json).collect::<Vec<_>>() });
+	let dm = if !p.dm.is_empty() || p.empty_lists & 2 != 0 { serde_json::json!({ "dependencies": deps(&p.dm) }) }
+		else if p.dm_empty_element { serde_json::json!({ "dependencies": null }) } else { serde_json::Value::Null };
+	let dependencies = if !p.deps.is_empty() || p.empty_lists & 1 != 0 { deps(&p.deps) } else { serde_json::Value::Null };
+	let parent = match &p.parent { None => serde_json::Value::Null, Some((g, a, v)) => serde_json::json!({ "groupId": g, "artifactId": a, "version": v }) };
+	serde_json::json!({ "modelVersion": p.model_version, "parent": parent, "groupId": p.group, "artifactId": p.artifact, "version": p.version,
+		"packaging": p.packaging, "dependencyManagement": dm, "dependencies": dependencies })
+}
+/// every field of `want` is in `got` with the same value (missing = null); `got` may have more fields
+pub fn json_covers(want: &serde_json::Value, got: &serde_json::Value) -> bool {
+	use serde_json::Value::*;
+	match (want, got) {
+		(Object(w), Object(g)) => w.iter().all(|(k, v)| json_covers(v, g.get(k).unwrap_or(&Null))),
+		(Array(w), Array(g)) => w.len() == g.len() && w.iter().zip(g.iter()).all(|(a, b)| json_covers(a, b)),
+		(a, b) => a == b,
+	}
 }
 
 // ---------- the repository layout (Maven repository layout documentation) ----------
@@ -127,10 +242,11 @@ pub fn g_coord(c: &ACoord) -> String {
 pub fn g_resolver(name: &str, maven: &str) -> String { format!("(mkResolver {} {})", gs(name), gs(maven)) }
 
 impl Universe {
+	pub fn new(repos: Vec<Repo>, roots: Vec<(ACoord, u8)>) -> Universe { Universe { repos, roots, unlisted: vec![] } }
 	/// the Downloader's map: URL -> document
 	pub fn url_map(&self) -> Vec<(String, Entry)> {
 		let mut out: Vec<(String, Entry)> = vec![];
-		for r in &self.repos {
+		for r in self.repos.iter().chain(self.unlisted.iter()) {
 			for ((g, a, v), e) in &r.files {
 				let url = pom_url(&r.maven, g, a, v);
 				if !out.iter().any(|(u, _)| *u == url) { out.push((url, e.clone())); }
@@ -150,6 +266,7 @@ impl Universe {
 		for r in &self.repos { s += &format!("  name={:?} maven={:?}\n", r.name, r.maven); }
 		s += "roots (coordinate, scope):\n";
 		for (c, sc) in &self.roots { s += &format!("  {}:{}:{}{}:{} {}\n", c.group, c.artifact, c.type_, c.classifier.as_ref().map_or(String::new(), |k| format!(":{k}")), c.version, SCOPES[*sc as usize]); }
+		for r in &self.unlisted { s += &format!("a repository that is NOT among the resolvers: maven={:?}\n", r.maven); }
 		s += "documents served by the Downloader:\n";
 		for (u, e) in self.url_map() {
 			s += &format!("--- {u}\n{}\n", match &e { Entry::Pom(p) => pom_xml(p), Entry::Broken(x) => x.clone() });
